@@ -2,9 +2,9 @@
 //!
 //! Requires the `time_trigger` feature.
 
-#[cfg(test)]
-use chrono::NaiveDateTime;
-use chrono::{DateTime, Datelike, Duration, Local, TimeZone, Timelike};
+use chrono::{
+    DateTime, Datelike, Duration, Local, LocalResult, NaiveDate, NaiveDateTime, TimeZone, Timelike,
+};
 #[cfg(test)]
 use mock_instant::{SystemTime, UNIX_EPOCH};
 use rand::Rng;
@@ -12,7 +12,7 @@ use rand::Rng;
 use serde::de;
 #[cfg(feature = "config_parsing")]
 use std::fmt;
-use std::sync::RwLock;
+use std::{convert::TryFrom, sync::RwLock};
 
 use crate::append::rolling_file::{policy::compound::trigger::Trigger, LogFile};
 #[cfg(feature = "config_parsing")]
@@ -201,7 +201,12 @@ impl TimeTrigger {
         let next_time = TimeTrigger::get_next_time(current, config.interval, config.modulate);
         let next_roll_time = if config.max_random_delay > 0 {
             let random_delay = rand::thread_rng().gen_range(0..config.max_random_delay);
-            next_time + Duration::seconds(random_delay as i64)
+            let delay = i64::try_from(random_delay)
+                .ok()
+                .and_then(|d| Self::span(d, 1));
+            delay
+                .and_then(|d| next_time.checked_add_signed(d))
+                .unwrap_or(next_time)
         } else {
             next_time
         };
@@ -217,71 +222,98 @@ impl TimeTrigger {
         interval: TimeTriggerInterval,
         modulate: bool,
     ) -> DateTime<Local> {
-        let year = current.year();
-        if let TimeTriggerInterval::Year(n) = interval {
-            let n = n as i32;
-            let increment = if modulate { n - year % n } else { n };
-            let year_new = year + increment;
-            return Local.with_ymd_and_hms(year_new, 1, 1, 0, 0, 0).unwrap();
-        }
+        // A schedule that cannot be represented means "never roll": 9999-12-31T23:59:59Z.
+        let never = NaiveDate::from_ymd_opt(9999, 12, 31).unwrap();
+        let never = Local.from_utc_datetime(&never.and_hms_opt(23, 59, 59).unwrap());
+        Self::checked_next_time(current, interval, modulate)
+            .filter(|next| *next > current)
+            .unwrap_or(never)
+    }
 
-        if let TimeTriggerInterval::Month(n) = interval {
-            let month0 = current.month0();
-            let n = n as u32;
-            let increment = if modulate { n - month0 % n } else { n };
-            let num_months = (year as u32) * 12 + month0;
-            let num_months_new = num_months + increment;
-            let year_new = (num_months_new / 12) as i32;
-            let month_new = (num_months_new) % 12 + 1;
-            return Local
-                .with_ymd_and_hms(year_new, month_new, 1, 0, 0, 0)
-                .unwrap();
+    /// `count` units of `unit_secs` seconds, if chrono can represent that.
+    fn span(count: i64, unit_secs: i64) -> Option<Duration> {
+        let secs = count.checked_mul(unit_secs)?;
+        if secs.abs() > i64::MAX / 1_000 {
+            return None;
         }
+        Some(Duration::seconds(secs))
+    }
 
-        let month = current.month();
-        let day = current.day();
-        if let TimeTriggerInterval::Week(n) = interval {
-            let week0 = current.iso_week().week0() as i64;
-            let weekday = current.weekday().num_days_from_monday() as i64; // Monday is the first day of the week
-            let time = Local.with_ymd_and_hms(year, month, day, 0, 0, 0).unwrap();
-            let increment = if modulate { n - week0 % n } else { n };
-            return time + Duration::weeks(increment) - Duration::days(weekday);
+    /// The occurrence of a local time that lies after `current`. A local time skipped by a
+    /// daylight-saving gap is moved forward (15-minute steps) to the first one that exists.
+    fn resolve_after(
+        mut naive: NaiveDateTime,
+        current: &DateTime<Local>,
+    ) -> Option<DateTime<Local>> {
+        for _ in 0..200 {
+            match Local.from_local_datetime(&naive) {
+                LocalResult::Single(t) => return Some(t),
+                LocalResult::Ambiguous(a, b) => return Some(if a > *current { a } else { b }),
+                LocalResult::None => naive = naive.checked_add_signed(Duration::seconds(900))?,
+            }
         }
+        None
+    }
 
-        if let TimeTriggerInterval::Day(n) = interval {
-            let ordinal0 = current.ordinal0() as i64;
-            let time = Local.with_ymd_and_hms(year, month, day, 0, 0, 0).unwrap();
-            let increment = if modulate { n - ordinal0 % n } else { n };
-            return time + Duration::days(increment);
+    fn checked_next_time(
+        current: DateTime<Local>,
+        interval: TimeTriggerInterval,
+        modulate: bool,
+    ) -> Option<DateTime<Local>> {
+        // number of units to add; an interval below 1 counts as 1
+        let increment = |n: i64, field: i64| {
+            let n = n.max(1);
+            if modulate {
+                n.checked_sub(field % n)
+            } else {
+                Some(n)
+            }
+        };
+        // year, month: calendar arithmetic, then the first instant of that local day
+        let first_of_month = |months: i64| {
+            let year = i32::try_from(months.div_euclid(12)).ok()?;
+            let date = NaiveDate::from_ymd_opt(year, months.rem_euclid(12) as u32 + 1, 1)?;
+            Self::resolve_after(date.and_hms_opt(0, 0, 0)?, &current)
+        };
+        // day, week: whole local days after local midnight of today
+        let midnight_plus = |days: i64| {
+            let midnight = current.naive_local().date().and_hms_opt(0, 0, 0)?;
+            Self::resolve_after(
+                midnight.checked_add_signed(Self::span(days, 86_400)?)?,
+                &current,
+            )
+        };
+        // hour, minute, second: the unit started `elapsed` seconds ago on the UTC time line
+        let unit_start_plus = |count: i64, unit_secs: i64, elapsed: u32| {
+            let nanos = Duration::nanoseconds(current.timestamp_subsec_nanos() as i64);
+            let back = Duration::seconds(elapsed as i64) + nanos;
+            current.checked_add_signed(Self::span(count, unit_secs)? - back)
+        };
+        let year = current.year() as i64;
+        let (month0, minute, second) =
+            (current.month0() as i64, current.minute(), current.second());
+        match interval {
+            TimeTriggerInterval::Year(n) => {
+                first_of_month(increment(n, year)?.checked_add(year)?.checked_mul(12)?)
+            }
+            TimeTriggerInterval::Month(n) => {
+                first_of_month(increment(n, month0)?.checked_add(year * 12 + month0)?)
+            }
+            TimeTriggerInterval::Week(n) => {
+                let weekday = current.weekday().num_days_from_monday() as i64; // Monday is the first day of the week
+                let weeks = increment(n, current.iso_week().week0() as i64)?;
+                midnight_plus(weeks.checked_mul(7)?.checked_sub(weekday)?)
+            }
+            TimeTriggerInterval::Day(n) => midnight_plus(increment(n, current.ordinal0() as i64)?),
+            TimeTriggerInterval::Hour(n) => {
+                let count = increment(n, current.hour() as i64)?;
+                unit_start_plus(count, 3_600, minute * 60 + second)
+            }
+            TimeTriggerInterval::Minute(n) => {
+                unit_start_plus(increment(n, minute as i64)?, 60, second)
+            }
+            TimeTriggerInterval::Second(n) => unit_start_plus(increment(n, second as i64)?, 1, 0),
         }
-
-        let hour = current.hour();
-        if let TimeTriggerInterval::Hour(n) = interval {
-            let time = Local
-                .with_ymd_and_hms(year, month, day, hour, 0, 0)
-                .unwrap();
-            let increment = if modulate { n - (hour as i64) % n } else { n };
-            return time + Duration::hours(increment);
-        }
-
-        let min = current.minute();
-        if let TimeTriggerInterval::Minute(n) = interval {
-            let time = Local
-                .with_ymd_and_hms(year, month, day, hour, min, 0)
-                .unwrap();
-            let increment = if modulate { n - (min as i64) % n } else { n };
-            return time + Duration::minutes(increment);
-        }
-
-        let sec = current.second();
-        if let TimeTriggerInterval::Second(n) = interval {
-            let time = Local
-                .with_ymd_and_hms(year, month, day, hour, min, sec)
-                .unwrap();
-            let increment = if modulate { n - (sec as i64) % n } else { n };
-            return time + Duration::seconds(increment);
-        }
-        panic!("Should not reach here!");
     }
 }
 
@@ -332,7 +364,10 @@ impl Trigger for TimeTrigger {
         let current: DateTime<Local> = Local::now();
         #[cfg(all(feature = "verif_hooks", not(test)))]
         let current = crate::verif_hooks::now_override().unwrap_or(current);
-        let mut next_roll_time = self.next_roll_time.write().unwrap();
+        let mut next_roll_time = self
+            .next_roll_time
+            .write()
+            .unwrap_or_else(|e| e.into_inner());
         let is_trigger = current >= *next_roll_time;
         if is_trigger {
             let tmp = TimeTrigger::new(self.config);
